@@ -8,6 +8,7 @@ import ClvmModel.Interp.Machine
 import ClvmModel.Proto.Run
 import ClvmProofs.Lemmas.Interp.RuntimeLift
 import ClvmProofs.Lemmas.Interp.RuntimeLiftCrypto
+import ClvmProofs.Lemmas.Interp.RuntimeLiftSyntactic
 
 namespace Clvm.Props.C30
 open Clvm Clvm.Interp Clvm.Alloc
@@ -268,6 +269,23 @@ theorem run_agrees_chia (cfg : Cfg) (F : Nat)
       runProgram cfg (chiaDialect cfg cryptoExtra F) fuel c0 p env mc :=
   run_agrees cfg cryptoExtra F hgc hdis (cryptoExtra_norm F) fuel c0 p env mc hdom
 
+/-- **Syntactic sufficient condition.**  `simple F false p`: `p` is built from paths, quoted constants
+`(q . x)` and forms `(op arg …)` whose operator is an atom that is not `chiaOnly F`, not `a` (2) and not
+the softfork keyword (36), with simple arguments.  Such a program is in the common domain for every
+environment, budget, fuel and allocator state (without `a` every operator the machine applies is an
+operator atom of the program text). -/
+theorem simple_in_domain (cfg : Cfg) (extra : String → Option OpFn) (F fuel : Nat) (c0 : Ctr) (p env : Val)
+    (mc : Nat) (hsim : simple F false p = true) : InCommonDomain cfg extra F fuel c0 p env mc = true :=
+  inCommonDomain_of_simple rfl rfl rfl fuel c0 p env mc hsim
+
+/-- … hence the two shipped dialects agree on every run of a simple program -/
+theorem run_agrees_simple (cfg : Cfg) (F : Nat)
+    (hgc : hasFlag F Gen.FLAG_ENABLE_GC = false) (hdis : hasFlag F Gen.FLAG_DISABLE_OP = false)
+    (fuel : Nat) (c0 : Ctr) (p env : Val) (mc : Nat) (hsim : simple F false p = true) :
+    runProgram cfg (runtimeDialect cfg cryptoExtra standardOpMap 1 2 F) fuel c0 p env mc =
+      runProgram cfg (chiaDialect cfg cryptoExtra F) fuel c0 p env mc :=
+  run_agrees_chia cfg F hgc hdis fuel c0 p env mc (simple_in_domain cfg cryptoExtra F fuel c0 p env mc hsim)
+
 /-! ### the hypotheses are satisfiable, the domain is not empty and not everything -/
 
 /-- `(c (0x4f (q . 1)) (+ (q . 2) (* (q . 3) (q . 5))))`: three table operators, `q`, and an opcode
@@ -277,6 +295,8 @@ def sampleProgram : Val :=
     (.pair (.pair (.atom [16]) (.pair (.pair (.atom [1]) (.atom [2]))
       (.pair (.pair (.atom [18]) (.pair (.pair (.atom [1]) (.atom [3])) (.pair (.pair (.atom [1]) (.atom [5])) (.atom []))))
         (.atom [])))) (.atom []))))
+
+example : simple 0 false sampleProgram = true := by decide +kernel
 
 /-- the sample run stays in the common domain … -/
 example : InCommonDomain { fastpath := true } cryptoExtra 0 100 (Ctr.new (2 ^ 32 - 1)) sampleProgram Val.nil 0 = true := by
